@@ -687,35 +687,75 @@ fn syndrome_faults(ctx: &Ctx, rng: &mut Rng, s: &SizeInfo, b: usize, faults: &mu
     if t < 2 {
         return false;
     }
-    let v = rng.range(1, t - 1);
-    // genuine pattern: v distinct locators inside the block, values non-zero
-    let idxs = rng.sample_distinct(nb, v);
-    let xs: Vec<u8> = idxs.iter().map(|i| gf.alpha_pow(nb - 1 - *i)).collect();
-    let ys: Vec<u8> = (0..v).map(|_| rng.nonzero_byte()).collect();
-    let mut syn: Vec<u8> = (1..=k)
-        .map(|j| {
-            let mut acc = 0u8;
-            for i in 0..v {
-                acc ^= gf.mul(ys[i], gf_pow(gf, xs[i], j));
-            }
-            acc
-        })
-        .collect();
-    // recurrence S_{j+v} = sum_i c_i S_{j+i}: c from prod (x - X_i) = x^v + sum c_i x^i
-    let mut poly = vec![1u8]; // highest degree first
-    for x in &xs {
-        let mut np = vec![0u8; poly.len() + 1];
-        for (d, c) in poly.iter().enumerate() {
-            np[d] ^= *c;
-            np[d + 1] ^= gf.mul(*c, *x);
+    let flavour = rng.below(20);
+    // order of the recurrence: usually below t, sometimes t, t+1 or t+2
+    let v = if flavour == 19 { rng.range(t, (t + 2).min(k - 1)) } else { rng.range(1, t - 1) };
+    let mut syn: Vec<u8>;
+    let mut poly: Vec<u8>; // x^v + p_{v-1} x^{v-1} + ... + p_0, highest degree first
+    if flavour >= 16 {
+        // an arbitrary linear recurrence: random taps (the "locator" may have repeated roots, roots outside
+        // the field's block positions, the root 0 when the constant tap is 0, or no roots at all)
+        poly = vec![1u8];
+        for _ in 0..v {
+            poly.push(if rng.chance(1, 8) { 0 } else { rng.byte() });
         }
-        poly = np;
+        syn = (0..k).map(|_| 0u8).collect();
+        for j in 0..k {
+            if j < v {
+                syn[j] = rng.byte();
+            } else {
+                let mut acc = 0u8;
+                for i in 0..v {
+                    acc ^= gf.mul(poly[v - i], syn[j - v + i]);
+                }
+                syn[j] = acc;
+            }
+        }
+    } else {
+        // a genuine pattern: v distinct locators, inside the block or (sometimes) some of them outside it
+        let mut xs: Vec<u8> = Vec::new();
+        let outside = flavour >= 13;
+        let idxs = rng.sample_distinct(nb, v.min(nb));
+        for i in idxs {
+            xs.push(gf.alpha_pow(nb - 1 - i));
+        }
+        if outside && nb < 255 {
+            let n_out = rng.range(1, xs.len());
+            for q in 0..n_out {
+                let x = gf.alpha_pow(rng.range(nb, 254));
+                if !xs.contains(&x) {
+                    xs[q] = x;
+                }
+            }
+        }
+        let v = xs.len();
+        let ys: Vec<u8> = (0..v).map(|_| rng.nonzero_byte()).collect();
+        syn = (1..=k)
+            .map(|j| {
+                let mut acc = 0u8;
+                for i in 0..v {
+                    acc ^= gf.mul(ys[i], gf_pow(gf, xs[i], j));
+                }
+                acc
+            })
+            .collect();
+        // recurrence S_{j+v} = sum_i p_i S_{j+i}: p from prod (x - X_i)
+        poly = vec![1u8];
+        for x in &xs {
+            let mut np = vec![0u8; poly.len() + 1];
+            for (d, c) in poly.iter().enumerate() {
+                np[d] ^= *c;
+                np[d + 1] ^= gf.mul(*c, *x);
+            }
+            poly = np;
+        }
     }
+    let v = poly.len() - 1;
     // poly = [1, p_{v-1}, ..., p_0]; S_{j+v} = sum_{i<v} p_i S_{j+i} (char 2)
     let n_disc = if rng.chance(3, 4) { 1 } else { 2 };
     for _ in 0..n_disc {
-        let cands = [2 * v, 2 * v + 1, t, t + 1, t + v - 1, t + v, t + v + 1, k - v, k - 1, k];
-        let d = if rng.chance(3, 4) { *rng.pick(&cands) } else { rng.range(1, k) };
+        let cands = [2 * v, 2 * v + 1, t, t + 1, (t + v).saturating_sub(1), t + v, t + v + 1, k.saturating_sub(v), k - 1, k];
+        let d = if rng.chance(1, 2) { *rng.pick(&cands) } else { rng.range(1, k) };
         let d = d.clamp(1, k); // 1-based syndrome index
         syn[d - 1] ^= rng.nonzero_byte();
         for j in d..k {
@@ -1451,13 +1491,19 @@ fn beyond_radius_faults(ctx: &Ctx, rng: &mut Rng, s: &SizeInfo, faults: &mut Vec
             let w: Vec<usize> = (0..s.blocks).map(|b| rng.range(0, s.block_len(b))).collect();
             weighted_cw_faults(rng, s, &w, faults);
         }
-        8 => {
+        8 | 17 => {
             let b = rng.below(s.blocks);
-            syndrome_faults(ctx, rng, s, b, faults);
-        }
-        17 => {
-            let b = rng.below(s.blocks);
-            phantom_faults(ctx, rng, s, b, false, faults);
+            if rng.below(20) == 8 || rng.chance(1, 2) {
+                syndrome_faults(ctx, rng, s, b, faults);
+            } else {
+                phantom_faults(ctx, rng, s, b, false, faults);
+            }
+            // interplay between blocks: the others clean, or lightly / fully (but correctably) damaged
+            if s.blocks > 1 && rng.chance(1, 2) {
+                let mut w = bounded_weights(rng, s);
+                w[b] = 0;
+                weighted_cw_faults(rng, s, &w, faults);
+            }
         }
         6 | 7 => {
             // density 1: the whole word replaced
